@@ -62,6 +62,10 @@ def gen_cases(tier, seed, ctx):
                     open(q, 'wb').write(bytes(m))
                     cases.append(E.Case('o%d' % len(cases), 'OPEN %s %d %s %s %s %d' % (
                         q, pr['hash_type'], good, rnd.choice(['-', str(total)]), rnd.choice(['td', 'dt']), rnd.choice([0, 1])), dict(kind='sub-pinned')))
+                    # ... and on a context that has read the lead of the INTACT file before (the bytes behind the descriptor replaced, the
+                    # lead read again): what an earlier lead said must not stand in for what this file stores
+                    if v == b[pos] ^ 1:
+                        cases.append(E.Case('o%d' % len(cases), 'PINSWAP %s %s - - - %s' % (p, q, rnd.choice('lv')), dict(kind='sub-reread')))
                     # ... and with the expected values announced LATE (type before or after zck_read_lead, digest and length after it)
                     cases.append(E.Case('o%d' % len(cases), 'OPENLATE %s %s %d %s %s' % (
                         q, rnd.choice(['-', 'hl', str(total)]), pr['hash_type'], good, rnd.choice('ab')), dict(kind='sub-pinned-late')))
@@ -114,7 +118,7 @@ def nontrivial(r):
     return r['meta'].get('kind') != 'valid'
 
 def run(tier, seed, replay=None):
-    rule = ("OPENLATE = the same substitutions with the ORIGINAL checksum type / checksum / length announced after zck_read_lead; OPEN with pins = the same substitutions opened through the advanced API with the ORIGINAL header checksum / type / length given as expected values (with and without zck_validate_lead); OPENRETRY = the same through zck_read_lead / zck_read_header with every failing step retried after zck_clear_error on the same "
+    rule = ("PINSWAP without pins = the same substitutions opened on a context that has read (or validated) the lead of the intact file before; OPENLATE = the same substitutions with the ORIGINAL checksum type / checksum / length announced after zck_read_lead; OPEN with pins = the same substitutions opened through the advanced API with the ORIGINAL header checksum / type / length given as expected values (with and without zck_validate_lead); OPENRETRY = the same through zck_read_lead / zck_read_header with every failing step retried after zck_clear_error on the same "
             "context (2 values per position); OPENM = zck_init_read on a valid file with ONE header byte substituted: for the sampled valid files (all hash types, flags, "
             "dict, detached) every position in [0, header length) x all 255 other values (exhaustive; 5 files quick, 24 thorough; the "
             "remaining files x 6 values per position), the first body byte as a control, compressed integers re-spelled one digit longer (same value, other bytes), and insertions/deletions with the size field "
